@@ -1,7 +1,86 @@
-"""C02 -- see contracts/registry.json for the clauses; D kernels + bounded apply-level stand-in."""
+"""C02 -- see contracts/registry.json for the clauses; D kernels + bounded apply-level stand-in + data-block patches."""
+import itertools
+
+import gtirb
+
+from pyvc.run import BResult, Job
+
 from . import apply_bounded, kernels
+
+
+def data_patches(tier, seed):
+    """C02 for patches inserted into DATA blocks: labels defined by the patch (at its start, in the middle, at its very end) designate
+    their position inside the spliced patch; the block's own start / end labels keep their listing position"""
+    def run():
+        import logging
+        from gtirb_rewriting import RewritingContext
+        from gtirb_test_helpers import add_data_block, add_data_section, add_symbol, create_test_module
+        from bounded import scen
+        logging.getLogger("gtirb_rewriting").setLevel(logging.CRITICAL)
+        br = BResult()
+        patches = {".byte 7": {}, ".byte 7\nDL:": {"DL": 1}, "DL:\n.byte 7": {"DL": 0}, ".byte 7\nDL:\n.byte 8": {"DL": 1}, ".byte 7, 8\nDL:\nDM:": {"DL": 2, "DM": 2},
+                   "DL:\n.byte 7\nDM:": {"DL": 0, "DM": 1}}
+        br.bound = "data section of two data blocks (4 + 2 bytes) with start and end labels; 6 data patches (labels at the start / middle / very end) inserted or replacing one byte at every offset of the first block; one or two insertions per apply()"
+        br.clauses = ["C02/data/patch-label-designates-its-position-in-the-patch", "C02/data/block-labels-keep-their-listing-position", "C02/data/bytes-are-the-listing-edit"]
+        distinct = set()
+        orig = b"\x01\x02\x03\x04\x05\x06"
+        singles = [(op, o, txt) for txt in patches for o in range(5) for op in ("ins", "rep") if not (op == "rep" and o == 4)]
+        cases = [[s] for s in singles] + [[a, b] for a, b in itertools.combinations([s for s in singles if s[0] == "ins" and s[2] in (".byte 7\nDL:", "DL:\n.byte 7")], 2) if a[1] < b[1] and a[2] != b[2]]
+        for edits in cases:
+            ir, m = create_test_module(gtirb.Module.FileFormat.ELF, gtirb.Module.ISA.X64)
+            _, bi = add_data_section(m, address=0x2000)
+            d, d2 = add_data_block(bi, orig[:4]), add_data_block(bi, orig[4:])
+            add_symbol(m, "S", d)
+            e_ = add_symbol(m, "E", d)
+            e_.at_end = True
+            add_symbol(m, "S2", d2)
+            rc = RewritingContext(m, [])
+            names = {}
+            for n, (op, o, txt) in enumerate(edits):
+                t2 = txt if n == 0 else txt.replace("DL", "DL2_").replace("DM", "DM2_")
+                names[n] = t2
+                (rc.insert_at(d, o, scen.mkpatch(t2)) if op == "ins" else rc.replace_at(d, o, 1, scen.mkpatch(t2)))
+            br.cases += 1
+            distinct.add(tuple(edits))
+            desc = {"edits of the first data block": [[op, o, txt.splitlines()] for op, o, txt in edits]}
+            try:
+                rc.apply()
+            except Exception as ex:      # noqa
+                br.failures.append({"clause": "C02/data/bytes-are-the-listing-edit", "witness": desc, "detail": "%s: %s" % (type(ex).__name__, str(ex)[:100])})
+                continue
+            sec = [s for s in m.sections if s.name == ".data"][0]
+            got = b"".join(bytes(i.contents) for i in sorted(sec.byte_intervals, key=lambda i: i.address))
+            # listing oracle
+            out, pos, want_lab, shift_at = bytearray(), 0, {}, []
+            for n, (op, o, txt) in enumerate(edits):
+                pb = bytes(int(x) for line in txt.splitlines() if line.startswith(".byte") for x in line[5:].replace(",", " ").split())
+                out += orig[pos:o]
+                start = len(out)
+                for lab, lo in patches[txt].items():
+                    want_lab[lab if n == 0 else lab.replace("DL", "DL2_").replace("DM", "DM2_")] = start + lo
+                out += pb
+                pos = o + (1 if op == "rep" else 0)
+            out += orig[pos:]
+            if got != bytes(out):
+                br.failures.append({"clause": "C02/data/bytes-are-the-listing-edit", "witness": desc, "detail": "section bytes %s expected %s" % (got.hex(), bytes(out).hex())})
+                continue
+            labs = {s.name: (None if not isinstance(s.referent, gtirb.ByteBlock) or s.referent.module is not m else s.referent.address - 0x2000 + (s.referent.size if s.at_end else 0)) for s in m.symbols}
+            for lab, w in want_lab.items():
+                if labs.get(lab) != w:
+                    br.failures.append({"clause": "C02/data/patch-label-designates-its-position-in-the-patch", "witness": desc, "detail": "%s at %s expected %d" % (lab, labs.get(lab), w)})
+            grow = len(out) - len(orig)
+            first = edits[0]
+            want_s = 0 if not (first[1] == 0 and first[0] == "rep") else 0
+            if labs.get("S") != 0 or labs.get("S2") != 4 + grow or labs.get("E") != 4 + grow:
+                br.failures.append({"clause": "C02/data/block-labels-keep-their-listing-position", "witness": desc, "detail": "S, E, S2 at %s, %s, %s expected 0, %d, %d" % (labs.get("S"), labs.get("E"), labs.get("S2"), 4 + grow, 4 + grow)})
+            if len(br.samples) < 2:
+                br.samples.append(desc)
+        br.nontrivial = len(distinct)
+        return br
+    return run
 
 
 def jobs(tier="quick", seed=0):
     yield from kernels.jobs_for("C02", tier, seed)
     yield apply_bounded.job("C02", tier, seed)
+    yield Job("C02/data-patches-bounded", data_patches(tier, seed), kind="B", func="gtirb_rewriting.rewriting:RewritingContext.apply (data blocks)")
